@@ -4,6 +4,7 @@ package checks
 
 import (
 	"context"
+	"encoding/json"
 	"fmt"
 	"net"
 	"net/url"
@@ -186,6 +187,139 @@ func c19Unit(endpoint string, shard, nshards int) vh.Unit {
 	}}
 }
 
+// hosts registering at the same moment over their own connections, through the server the binary
+// uses: each is stored under the address of the connection *its* request arrived on
+func c19ConcurrentHosts(nHosts, bound int) vh.Unit {
+	name := fmt.Sprintf("concurrent-registrations/x%d", nHosts)
+	ids := vh.Identities()
+	hosts := []*vh.Ident{ids[1], ids[2], ids[3]}[:nHosts]
+	addrs := []string{"192.0.2.11:40001", "198.51.100.22:40002", "203.0.113.33:40003"}
+	var pw *vh.PoolWorld
+	var replies []*jsonrpc2.Message
+	body := func() {
+		vsched.ResetClock(0)
+		pw = vh.NewPoolWorld(vh.PoolConfig{Driver: vh.Memory, NoManager: true})
+		srv := &jsonrpc2.Server{}
+		if err := vh.RegisterProd(srv, pw); err != nil {
+			panic(err)
+		}
+		replies = make([]*jsonrpc2.Message, len(hosts))
+		var fns []func()
+		var names []string
+		for i, h := range hosts {
+			i, h := i, h
+			fh := pw.Host("conn-" + h.Name)
+			fh.Addr = addrs[i]
+			ctx := vh.CtxWith(vh.HostWithAddr{FakeHost: fh})
+			nonce := vsched.Now().UnixNano() + 10 + int64(i)
+			req := pool.ConnectRequest{NodeInfo: ethnode.UserAgent{Kind: ethnode.Geth, IsFullNode: true}}
+			pj, _ := json.Marshal([]interface{}{h.SignNode("vipnode_connect", nonce, req), h.NodeID, nonce, req})
+			msg, err := vh.ParseMessage(fmt.Sprintf(`{"jsonrpc":"2.0","id":%d,"method":"vipnode_connect","params":%s}`, i+1, pj))
+			if err != nil {
+				panic(err)
+			}
+			names = append(names, h.Name)
+			fns = append(fns, func() { replies[i] = srv.Handle(ctx, msg) })
+		}
+		vh.Par(names, fns...)
+	}
+	return vh.Unit{Name: name, Run: func(u *vh.U) {
+		vh.RunDFS(u, vh.DFSSpec{
+			Name: name, Bound: bound,
+			Run:  vsched.Options{YieldFiles: []string{"method.go", "server.go", "service.go"}, Delay: true},
+			Body: body,
+			Obs: func(s *vsched.Sched) string {
+				var l []string
+				for _, h := range hosts {
+					n, _ := pw.Raw.GetNode(store.NodeID(h.NodeID))
+					if n != nil {
+						l = append(l, n.URI[len(n.URI)-22:])
+					}
+				}
+				return strings.Join(l, " ")
+			},
+			Check: func(s *vsched.Sched) (string, string) {
+				for i, h := range hosts {
+					if replies[i] == nil || replies[i].Response == nil || replies[i].Error != nil {
+						return "uri/concurrent/registration-failed", fmt.Sprintf("host %d: reply %s", i, vh.ShortJSON(replies[i]))
+					}
+					n, err := pw.Raw.GetNode(store.NodeID(h.NodeID))
+					wantHost, _, _ := net.SplitHostPort(addrs[i])
+					want := "enode://" + h.NodeID + "@" + wantHost + ":30303"
+					if err != nil || n.URI != want {
+						got := "<none>"
+						if n != nil {
+							got = n.URI
+						}
+						return "uri/concurrent/address-of-another-connection", fmt.Sprintf("hosts registering at once, each over its own connection: host %d (connection from %s) is stored as %s, expected %s", i, addrs[i], strings.Replace(got, h.NodeID, "<own id>", 1), strings.Replace(want, h.NodeID, "<own id>", 1))
+					}
+				}
+				return "", ""
+			},
+		})
+	}}
+}
+
+// a host registers again from a new address while a client asks for peers: afterwards clients are
+// handed the address that is stored
+func c19MoveWhileAsked(bound int) vh.Unit {
+	name := "reregistration-vs-peer-request"
+	ids := vh.Identities()
+	host, client := ids[1], ids[0]
+	var pw *vh.PoolWorld
+	var errs2 [2]error
+	body := func() {
+		vsched.ResetClock(0)
+		pw = vh.NewPoolWorld(vh.PoolConfig{Driver: vh.Memory, NoManager: true})
+		pw.Raw.SetNode(store.Node{ID: store.NodeID(client.NodeID), Kind: "geth", LastSeen: vsched.Now()})
+		reg := func(uri string, n int64) error {
+			req := pool.ConnectRequest{NodeInfo: ethnode.UserAgent{Kind: ethnode.Geth, IsFullNode: true}, NodeURI: uri}
+			nonce := vsched.Now().UnixNano() + n
+			_, err := pw.Pool.Connect(vh.CtxWith(pw.Host("conn").Service()), host.SignNode("vipnode_connect", nonce, req), host.NodeID, nonce, req)
+			return err
+		}
+		if err := reg("enode://"+host.NodeID+"@192.0.2.1:30303", 1); err != nil {
+			panic(err)
+		}
+		pw.Peer(context.Background(), client, 1, "") // (a first request, as a warm cache would need)
+		vh.Par([]string{"re-register", "peer-request"},
+			func() { errs2[0] = reg("enode://"+host.NodeID+"@198.51.100.9:30303", 2) },
+			func() { _, errs2[1] = pw.Peer(context.Background(), client, 1, "") })
+	}
+	return vh.Unit{Name: name, Run: func(u *vh.U) {
+		vh.RunDFS(u, vh.DFSSpec{
+			Name: name, Bound: bound,
+			// (a peer request fans out to goroutines: delay-bounded, see DESIGN 2.2)
+			Run:  vsched.Options{YieldFiles: []string{"service.go"}, Drain: true, Delay: true},
+			Body: body,
+			Obs:  func(s *vsched.Sched) string { return fmt.Sprint(errs2[0] == nil, errs2[1] == nil) },
+			Check: func(s *vsched.Sched) (string, string) {
+				if errs2[0] != nil {
+					return "uri/concurrent/registration-failed", errs2[0].Error()
+				}
+				n, err := pw.Raw.GetNode(store.NodeID(host.NodeID))
+				if err != nil {
+					return "uri/concurrent/registration-failed", err.Error()
+				}
+				var handed []string
+				for k := 0; k < 2; k++ {
+					resp, perr := pw.Peer(context.Background(), client, 1, "")
+					if perr != nil || resp == nil || len(resp.Peers) != 1 {
+						return "uri/handed-out-address-differs", fmt.Sprintf("after the host registered again: vipnode_peer returned %+v err=%v", resp, perr)
+					}
+					handed = append(handed, resp.Peers[0].URI)
+				}
+				for _, h := range handed {
+					if h != n.URI {
+						return "uri/handed-out-address-differs", fmt.Sprintf("the host registered again from a new address while a client was asking for peers: stored %s, later vipnode_peer requests return %v", strings.Replace(n.URI, host.NodeID, "<id>", 1), strings.Replace(fmt.Sprint(handed), host.NodeID, "<id>", -1))
+					}
+				}
+				return "", ""
+			},
+		})
+	}}
+}
+
 func init() {
 	vh.Register(&vh.Check{
 		ID: "C19", Level: "model_checking",
@@ -198,6 +332,14 @@ func init() {
 				for s := 0; s < 4; s++ {
 					us = append(us, c19Unit(e, s, 4))
 				}
+			}
+			b := 2
+			if tier == "thorough" {
+				b = 3
+			}
+			us = append(us, c19ConcurrentHosts(2, b), c19MoveWhileAsked(b))
+			if tier == "thorough" {
+				us = append(us, c19ConcurrentHosts(3, 2))
 			}
 			return us
 		},
